@@ -720,6 +720,10 @@ impl IsoTime {
             nanosecond as u16,
         );
 
+        // NOTE: A day carry that does not fit an `i32` is far outside of any representable date;
+        // saturate it so that the callers' range checks reject it instead of wrapping around.
+        let days = days.clamp(i64::from(i32::MIN), i64::from(i32::MAX));
+
         (days as i32, time)
     }
 
